@@ -24,6 +24,19 @@ CLAIMED["C12"] = ("Theorems C12_* (coq/Properties/C12.v): the iteration engine's
                   "expression/predicate tree, every range literal (all signs of start/stop/step) and every row. The "
                   "range-literal arm of convert_predicate is regenerated from sql/_engine.py on every run; the SQL semantics "
                   "is validated against a real SQLite database by the same run.", "DESIGN.md §4 C12")
+CLAIMED["C01"] = ("Theorem C01_iteration_execute_exact (coq/Properties/C01.v): for every program of factory calls accepted by the "
+                  "model of the factory pipeline, over truthful leaves, the model of Engine.execute (short-cuts, dict-based "
+                  "deduplication, multi-pass sort, lazy row iterables' content) returns exactly the list denoted by direct "
+                  "evaluation of the applied operation sequence; proved by structural induction with no bound on program "
+                  "length, row count or integer size. Deduplication is claimed under the documented key-column contract "
+                  "(refutation witness for the unconditional statement included). Model tied to the code by regenerated "
+                  "Slice kernels and by comparing built trees and executed rows with the real library on every run.",
+                  "DESIGN.md §4 C01")
+CLAIMED["C06"] = ("Theorems C06_* (coq/Properties/C06.v): for every well-formed tree (all node kinds of both engines) over "
+                  "truthful leaves every row has exactly the relation's columns and the row count lies within "
+                  "[min_rows, max_rows]; hence max_rows=0 and is_join_identity agree with the content. Slice bound formulas "
+                  "are regenerated from source; the remaining bound formulas are compared with the library on every run.",
+                  "DESIGN.md §4 C06")
 NOT_APPLICABLE = {}
 
 
